@@ -815,8 +815,8 @@ def rule_q9(ctx, facts, rule="Q9"):
             ctx.inst(rule, b, what, c.span, ok,
                      "memory becomes old + %s: the delta the caller passed" % eff.show(b) if ok else
                      "the RMW changes the counter by %s, which is not the delta parameter" % eff.show(b))
-    if n < 2:
-        ctx.fail_closed("%s: expected the two RMWs of add_count on HashMap.count, found %d" % (rule, n))
+    if n < 1:
+        ctx.fail_closed("%s: expected an RMW of add_count on HashMap.count, found %d" % (rule, n))
 
 
 def rule_q1_all(ctx, facts, rule="Q1"):
@@ -843,7 +843,8 @@ def rule_q1_all(ctx, facts, rule="Q1"):
 
 def run(ctx, facts):
     ctx.rule("Q9", "the entry counter changes only by the delta passed to add_count: every write to HashMap.count is fetch_add / fetch_sub of "
-                   "that delta (no saturation, store, swap or conditional update)", floor=2)
+                   "that delta (no saturation, store, swap or conditional update)", floor=1,
+             floor_note="two on the pinned tree (one per sign); a single fetch_add(n) for both signs is as good")
     rule_q9(ctx, facts)
     ctx.rule("Q8", "iteration visits every node of a bin: NodeIter::next yields the successor of the last node whenever the link is non-null "
                    "(rule T5 of C07) -- otherwise iteration yields fewer keys than len() counts and lookups find", floor=3)
